@@ -59,6 +59,14 @@ func vIteByte(c bool, a, b byte) byte {
 	return b
 }
 func vSymbolic() bool { return false }
+
+// vPoolAdversarial switches the engine's sync.Pool model between LIFO
+// and adversarial reuse (no effect natively).
+func vPoolAdversarial(on bool) {}
+
+// vPoolReuses reports how many Get calls were served from the free list
+// (engine fact; natively unknown).
+func vPoolReuses() int { return -1 }
 func vAssume(b bool) {
 	if !b {
 		panic(assumeFailed{})
@@ -384,6 +392,32 @@ func validUTF8(b []byte) bool {
 		i += n + 1
 	}
 	return true
+}
+
+// vAssumeValidUTF8 assumes b is valid UTF-8.  For len(b) <= 3 the
+// assumption is one term (a disjunction over the possible rune
+// structures), so it does not fork; longer strings use the forking oracle.
+func vAssumeValidUTF8(b []byte) {
+	asc := func(c byte) bool { return c < 0x80 }
+	cont := func(c byte) bool { return vAnd(c >= 0x80, c <= 0xBF) }
+	two := func(a, c byte) bool { return vAnd(vAnd(a >= 0xC2, a <= 0xDF), cont(c)) }
+	three := func(a, c, d byte) bool {
+		lead := vOr(vOr(vAnd(a == 0xE0, vAnd(c >= 0xA0, c <= 0xBF)), vAnd(vAnd(a >= 0xE1, a <= 0xEC), cont(c))),
+			vOr(vAnd(a == 0xED, vAnd(c >= 0x80, c <= 0x9F)), vAnd(vAnd(a >= 0xEE, a <= 0xEF), cont(c))))
+		return vAnd(lead, cont(d))
+	}
+	switch len(b) {
+	case 0:
+	case 1:
+		vAssume(asc(b[0]))
+	case 2:
+		vAssume(vOr(vAnd(asc(b[0]), asc(b[1])), two(b[0], b[1])))
+	case 3:
+		vAssume(vOr(vOr(vAnd(vAnd(asc(b[0]), asc(b[1])), asc(b[2])), three(b[0], b[1], b[2])),
+			vOr(vAnd(asc(b[0]), two(b[1], b[2])), vAnd(two(b[0], b[1]), asc(b[2])))))
+	default:
+		vAssume(validUTF8(b))
+	}
 }
 
 var (
